@@ -78,6 +78,8 @@ class Destinations(object):
         self._destinations = [BufferingDestination()]
         self._any_added = False
         self._globalFields = {}
+        # Serializes changes to the list of destinations:
+        self._lock = Lock()
 
     def addGlobalFields(self, **fields):
         """
@@ -163,7 +165,8 @@ class Destinations(object):
             self._destinations = list(destinations)
             buffered_messages = buffer.stop_buffering(self.send)
         else:
-            self._destinations.extend(destinations)
+            with self._lock:
+                self._destinations.extend(destinations)
         if buffered_messages:
             # Re-deliver buffered messages:
             for message in buffered_messages:
@@ -180,9 +183,10 @@ class Destinations(object):
         # Replace the list rather than changing it in place: a send() that
         # is going through it right now (the destination may well be removing
         # itself from inside its own call) must not skip the next one.
-        destinations = list(self._destinations)
-        destinations.remove(destination)
-        self._destinations = destinations
+        with self._lock:
+            destinations = list(self._destinations)
+            destinations.remove(destination)
+            self._destinations = destinations
 
 
 class ILogger(Interface):
